@@ -197,16 +197,34 @@ pub fn oracle<E: Engine>(_ctx: &RunCtx, spec: &HostileSpec, log: &mut CaseLog) -
                 _ => u64::MAX,
             });
         }
-        // hostile constructor arguments: an empty / short promise vector must be refused by the validating constructor; if it
+        // hostile constructor arguments: an empty / short promise vector and an impossible number of commitments must be refused by the validating constructor; if it
         // is not, whatever statement comes out is handed to the verifier like any other
-        match hm.bulk % 7 {
+        let mut commitments = t.commitments.clone();
+        let mut seed = t.seed;
+        match hm.bulk % 11 {
             0 => promises.clear(),
             1 if promises.len() > 1 => {
                 promises.pop();
             },
+            // no commitment at all, three of them, twice the capacity: counts the validating constructor has to refuse
+            2 => {
+                commitments.clear();
+                promises.clear();
+                seed = if hm.bulk & 16 == 0 { None } else { seed };
+            },
+            3 => {
+                commitments = (0..3).map(|i| t.commitments[i % m].clone()).collect();
+                promises = (0..3).map(|i| t.promises[i % m]).collect();
+                seed = None;
+            },
+            4 => {
+                commitments = (0..2 * cap).map(|i| t.commitments[i % m].clone()).collect();
+                promises = (0..2 * cap).map(|i| t.promises[i % m]).collect();
+                seed = None;
+            },
             _ => {},
         }
-        let st = match guarded(|| RangeStatement::init(t.params.clone(), t.commitments.clone(), promises, t.seed))
+        let st = match guarded(|| RangeStatement::init(t.params.clone(), commitments, promises, seed))
             .map_err(|e| format!("{} in RangeStatement::init", e))?
         {
             Ok(s) => s,
